@@ -77,6 +77,10 @@ def load_facts(src_root: Path) -> dict:
             f"{proc.stderr[-2000:]}"
         )
     data = json.loads(tmp.read_text())
+    if source_digest(src_root) != digest:
+        # the analysed tree changed while mypy was reading it: these facts describe neither version - never cache them
+        tmp.unlink(missing_ok=True)
+        raise FactsError("the analysed source tree changed during fact extraction; re-run the check")
     os.replace(tmp, cache)
     return data
 
